@@ -1,8 +1,10 @@
 package props
 
 import (
+	"fmt"
 	"go/ast"
 	"go/types"
+	"golibcheck/internal/paths"
 	"strings"
 
 	"golibcheck/internal/core"
@@ -68,6 +70,7 @@ func runC08(p *core.Program, r *core.Report) {
 	r.Rule("C08.countlink", "repetitions are driven by the count written", 16)
 	r.Rule("C08.fresh", "every step/service object the factories hand out is freshly allocated", 10)
 	r.Rule("C08.selfdelim", "no step/record reader consumes input up to end-of-stream (no Available()-driven reads): steps concatenate", 14)
+	r.Rule("C08.all-steps", "a step list is written element by element: every iteration over the steps emits its step (none is skipped on any condition)", 1)
 	r.Rule("C08.defaulting", "TxRecord.Read mutates decoded fields only by the sanctioned ErrorLevel defaulting", 1)
 	checkRegistry(p, r, "C08.registry", "lang/step", "CreateStep", "Step", "GetStepType")
 	checkRegistry(p, r, "C08.registry", "lang/service", "CreateService", "Service", "GetServiceType")
@@ -111,10 +114,91 @@ func runC08(p *core.Program, r *core.Report) {
 		}
 	}
 	c08Defaulting(p, r, x)
+	c08AllSteps(p, r)
 }
 
 // c08Defaulting: in TxRecord.Read every assignment to a receiver field takes its value from the
 // stream, except the listed ones.
+// c08AllSteps: in every function that iterates over a slice of steps and writes them with WriteStep /
+// Step.Write, every path through one iteration performs the write exactly once: a step that is skipped
+// (filtered on a flag, say) makes the decoded profile shorter and shifts every later step.
+func c08AllSteps(p *core.Program, r *core.Report) {
+	n := 0
+	for _, rel := range []string{"lang/step", "lang/pack"} {
+		pk := p.Pkg(rel)
+		if pk == nil {
+			continue
+		}
+		for _, fi := range p.Funcs {
+			if fi.Pkg != pk || fi.Decl.Body == nil {
+				continue
+			}
+			info := fi.Pkg.TypesInfo
+			ast.Inspect(fi.Decl.Body, func(m ast.Node) bool {
+				var body *ast.BlockStmt
+				var over ast.Expr
+				switch lp := m.(type) {
+				case *ast.ForStmt:
+					body = lp.Body
+				case *ast.RangeStmt:
+					body, over = lp.Body, lp.X
+				default:
+					return true
+				}
+				isWrite := func(k ast.Node) bool {
+					call, ok := k.(*ast.CallExpr)
+					if !ok {
+						return false
+					}
+					return isCallTo(info, call, core.ModPath+"/lang/step", "WriteStep")
+				}
+				has := false
+				ast.Inspect(body, func(k ast.Node) bool {
+					if isWrite(k) {
+						has = true
+					}
+					return true
+				})
+				if !has {
+					return true
+				}
+				_ = over
+				n++
+				ps, tooMany := paths.Enumerate(body, paths.Config{Info: info, Classify: func(k ast.Node) []paths.Event {
+					var out []paths.Event
+					ast.Inspect(k, func(q ast.Node) bool {
+						if isWrite(q) {
+							out = append(out, paths.Event{Kind: "WRITESTEP"})
+						}
+						return true
+					})
+					return out
+				}})
+				c := core.FuncName(fi.Obj) + " step loop"
+				pos := p.Pos(m.Pos())
+				if tooMany {
+					r.Undec("C08.all-steps", c, pos, "too many paths")
+					return false
+				}
+				bad := ""
+				for _, pa := range ps {
+					if pa.Has("PANIC") {
+						continue
+					}
+					if pa.Count("WRITESTEP") != 1 && bad == "" {
+						bad = fmt.Sprintf("an iteration over the steps writes its step %d times on the path %s: the encoded list no longer holds every step once", pa.Count("WRITESTEP"), pa.String())
+					}
+				}
+				r.Check(bad == "", "C08.all-steps", c, pos, "every step written once per iteration", bad)
+				return false
+			})
+		}
+	}
+	if n == 0 {
+		r.Undec("C08.all-steps", "lang/step step-list writers", "-", "no loop writing steps found")
+	}
+}
+
 func c08Defaulting(p *core.Program, r *core.Report, x *wire.Extractor) {
 	fi := p.Method("lang/service", "TxRecord", "Read")
 	if fi == nil {
@@ -127,46 +211,82 @@ func c08Defaulting(p *core.Program, r *core.Report, x *wire.Extractor) {
 		"Fields":     "value.NewMapValue()",
 	}
 	var bad []string
+	// Read itself and the unexported same-receiver helpers it is split into
+	bodies := []*core.FuncInfo{fi}
 	ast.Inspect(fi.Decl.Body, func(n ast.Node) bool {
-		as, ok := n.(*ast.AssignStmt)
-		if !ok {
-			return true
-		}
-		for i, l := range as.Lhs {
-			sel, ok := l.(*ast.SelectorExpr)
-			if !ok || i >= len(as.Rhs) {
-				continue
-			}
-			if id, ok := sel.X.(*ast.Ident); !ok || fi.Decl.Recv == nil || info.ObjectOf(id) != info.Defs[fi.Decl.Recv.List[0].Names[0]] {
-				continue
-			}
-			fromStream := false
-			ast.Inspect(as.Rhs[i], func(m ast.Node) bool {
-				if call, ok := m.(*ast.CallExpr); ok {
-					if s, ok := call.Fun.(*ast.SelectorExpr); ok {
-						if tv, ok := info.Types[s.X]; ok && x.IsIn(tv.Type) {
-							fromStream = true
-						}
-					}
-					for _, a := range call.Args {
-						if tv, ok := info.Types[a]; ok && x.IsIn(tv.Type) {
-							fromStream = true
+		if call, ok := n.(*ast.CallExpr); ok {
+			if sel, ok := call.Fun.(*ast.SelectorExpr); ok {
+				if fn, _ := info.Uses[sel.Sel].(*types.Func); fn != nil && !fn.Exported() && fn.Pkg() == fi.Obj.Pkg() {
+					if id, ok := ast.Unparen(sel.X).(*ast.Ident); ok && fi.Decl.Recv != nil && info.ObjectOf(id) == info.Defs[fi.Decl.Recv.List[0].Names[0]] {
+						if hfi := p.FuncOf(fn); hfi != nil && hfi.Decl.Body != nil && hfi != fi {
+							bodies = append(bodies, hfi)
 						}
 					}
 				}
-				return true
-			})
-			if fromStream {
-				continue
 			}
-			rhs := types.ExprString(as.Rhs[i])
-			if want, ok := allowed[sel.Sel.Name]; ok && want == rhs {
-				continue
-			}
-			bad = append(bad, sel.Sel.Name+" = "+rhs+" at "+p.Pos(as.Pos()))
 		}
 		return true
 	})
+	for _, bfi := range bodies {
+		fi := bfi
+		ast.Inspect(fi.Decl.Body, func(n ast.Node) bool {
+			as, ok := n.(*ast.AssignStmt)
+			if !ok {
+				return true
+			}
+			for i, l := range as.Lhs {
+				sel, ok := l.(*ast.SelectorExpr)
+				if !ok || i >= len(as.Rhs) {
+					continue
+				}
+				if id, ok := sel.X.(*ast.Ident); !ok || fi.Decl.Recv == nil || info.ObjectOf(id) != info.Defs[fi.Decl.Recv.List[0].Names[0]] {
+					continue
+				}
+				fromStream := false
+				ast.Inspect(as.Rhs[i], func(m ast.Node) bool {
+					if call, ok := m.(*ast.CallExpr); ok {
+						if s, ok := call.Fun.(*ast.SelectorExpr); ok {
+							if tv, ok := info.Types[s.X]; ok && x.IsIn(tv.Type) {
+								fromStream = true
+							}
+						}
+						for _, a := range call.Args {
+							if tv, ok := info.Types[a]; ok && x.IsIn(tv.Type) {
+								fromStream = true
+							}
+						}
+					}
+					return true
+				})
+				if fromStream {
+					continue
+				}
+				rhs := types.ExprString(as.Rhs[i])
+				if want, ok := allowed[sel.Sel.Name]; ok && want == rhs {
+					if sel.Sel.Name == "ErrorLevel" {
+						// sanctioned only for "no level recorded (0) but an error id is present"
+						rn := recvName(fi)
+						norm := func(e ast.Expr) string { return strings.ReplaceAll(stripSpaces(types.ExprString(e)), rn+".", "") }
+						zeroLevel, hasErr := false, false
+						for _, a := range dominatingAtoms(fi, as) {
+							switch condKey(info, norm, a.E, a.V) {
+							case cc("ErrorLevel", "==", "0", true):
+								zeroLevel = true
+							case cc("Error", "!=", "0", true):
+								hasErr = true
+							}
+						}
+						if !(zeroLevel && hasErr) {
+							bad = append(bad, "ErrorLevel is raised to WARNING under a condition other than `ErrorLevel == 0 && Error != 0` at "+p.Pos(as.Pos())+": a decoded record with another level comes back changed")
+						}
+					}
+					continue
+				}
+				bad = append(bad, sel.Sel.Name+" = "+rhs+" at "+p.Pos(as.Pos()))
+			}
+			return true
+		})
+	}
 	if len(bad) > 0 {
 		r.Viol("C08.defaulting", "lang/service.(*TxRecord).Read", p.Pos(fi.Decl.Pos()), "decoded record is altered after reading: "+strings.Join(bad, "; "))
 	} else {
